@@ -203,7 +203,7 @@ func rootsAtStackAlloc(a ssa.Value) bool {
 
 func (ws *writeSet) add(o writeSet) {
 	if o.all {
-		ws.all = true
+		ws.all, ws.allPlain = true, true
 	}
 	if o.extern {
 		ws.extern = true
@@ -256,7 +256,7 @@ func (e *Enc) callWrites(c *ssa.CallCommon, ws *writeSet, depth int, seen map[*s
 			if m, ok := c.Args[0].Type().Underlying().(*types.Map); ok {
 				e.mapCompNames(m, ws.names)
 			} else {
-				ws.all = true
+				ws.all, ws.allPlain = true, true
 			}
 		}
 		return
@@ -268,7 +268,7 @@ func (e *Enc) callWrites(c *ssa.CallCommon, ws *writeSet, depth int, seen map[*s
 		}
 		cands, ok := e.R.implementations(c.Value.Type(), c.Method)
 		if !ok {
-			ws.all = true
+			ws.all, ws.allPlain = true, true
 			return
 		}
 		for _, cand := range cands {
@@ -286,10 +286,32 @@ func (e *Enc) callWrites(c *ssa.CallCommon, ws *writeSet, depth int, seen map[*s
 		}
 	}
 	if callee == nil {
-		ws.all = true // call through an unknown function value
+		ws.all, ws.allPlain = true, true // call through an unknown function value
 		return
 	}
 	e.funcWrites(callee, c, ws, depth, seen)
+}
+
+func (ws *writeSet) addAllBut(keep map[string]bool) {
+	if ws.allPlain {
+		return
+	}
+	if !ws.all || ws.allBut == nil {
+		if ws.all {
+			return // already everything
+		}
+		ws.all = true
+		ws.allBut = map[string]bool{}
+		for k := range keep {
+			ws.allBut[k] = true
+		}
+		return
+	}
+	for k := range ws.allBut {
+		if !keep[k] {
+			delete(ws.allBut, k)
+		}
+	}
 }
 
 func (e *Enc) specWrites(spec *FuncSpec, sig *types.Signature, callee *ssa.Function, ws *writeSet) {
@@ -297,12 +319,17 @@ func (e *Enc) specWrites(spec *FuncSpec, sig *types.Signature, callee *ssa.Funct
 		return
 	}
 	if !spec.HasAssigns {
-		ws.all = true
+		ws.all, ws.allPlain, ws.allBut = true, true, nil
 		return
 	}
 	names, all := e.assignCompNames(spec, sig, callee)
 	if all {
-		ws.all = true
+		if kb := e.lastAllBut; kb != nil {
+			e.lastAllBut = nil
+			ws.addAllBut(kb)
+		} else {
+			ws.all, ws.allPlain, ws.allBut = true, true, nil
+		}
 	}
 	for _, n := range names {
 		ws.names[n] = true
@@ -346,14 +373,14 @@ func (e *Enc) funcWrites(callee *ssa.Function, c *ssa.CallCommon, ws *writeSet, 
 		seenT := map[string]bool{}
 		for _, t := range ts {
 			if !e.externReach(t, ws.names, seenT, 0) {
-				ws.all = true
+				ws.all, ws.allPlain = true, true
 				return
 			}
 		}
 		ws.extern = true // ghost state of external objects (database contents, sets) may change
 		return
 	}
-	ws.all = true
+	ws.all, ws.allPlain = true, true
 }
 
 // implementations: concrete methods that an interface method call can dispatch to (CHA).
@@ -486,11 +513,11 @@ func (f *FnEnc) call(c *ssa.CallCommon, v ssa.Value, pos token.Pos) Val {
 	// external function without contract
 	e.abstracted[fnDisplayName(f.fn)+": external call "+name+" (no contract)"] = true
 	if f.fieldPtrArgs(args, sig, name) {
-		ws.all = true
+		ws.all, ws.allPlain = true, true
 	}
 	for _, a := range c.Args {
 		if sl, ok := a.Type().Underlying().(*types.Slice); ok && f.viewElem[typeKey(sl.Elem().Underlying())] {
-			ws.all = true // the slice may view a repo array field; the callee may write through it
+			ws.all, ws.allPlain = true, true // the slice may view a repo array field; the callee may write through it
 		}
 	}
 	f.st = f.havocWrites(ws)
@@ -510,7 +537,7 @@ func (f *FnEnc) argAliasWrites(args []Val, c *ssa.CallCommon, ws *writeSet) {
 	}
 	for _, a := range c.Args {
 		if sl, ok := a.Type().Underlying().(*types.Slice); ok && f.viewElem[typeKey(sl.Elem().Underlying())] {
-			ws.all = true
+			ws.all, ws.allPlain = true, true
 		}
 	}
 }
@@ -535,12 +562,15 @@ func (f *FnEnc) localCompsHit(t types.Type, ws writeSet) bool {
 func (f *FnEnc) havocWrites(ws writeSet) *State {
 	if dbg := os.Getenv("VCHECK_WS"); dbg != "" {
 		for _, d := range strings.Split(dbg, ";") {
-			fmt.Fprintf(os.Stderr, "havoc in %s at %s: all=%v extern=%v names[%s]=%v fresh=%v\n", fnDisplayName(f.fn), f.e.posStr(f.curPos), ws.all, ws.extern, d, ws.names[d], ws.fresh[d])
+			fmt.Fprintf(os.Stderr, "havoc in %s at %s: all=%v plain=%v allBut=%d extern=%v names[%s]=%v fresh=%v\n", fnDisplayName(f.fn), f.e.posStr(f.curPos), ws.all, ws.allPlain, len(ws.allBut), ws.extern, d, ws.names[d], ws.fresh[d])
 		}
 	}
 	saved := f.saveLocalsFor(ws)
 	var st *State
-	if ws.all {
+	if ws.all && ws.allBut != nil && !ws.allPlain {
+		keep := ws.allBut
+		st = f.e.havocState(f.st, func(c *Comp) bool { return keep[c.Name] })
+	} else if ws.all {
 		st = f.e.havocState(f.st, nil)
 	} else {
 		names, fresh, ext := ws.names, ws.fresh, ws.extern
@@ -665,6 +695,9 @@ func (f *FnEnc) fieldPtrArgs(args []Val, sig *types.Signature, callee string) bo
 
 func (f *FnEnc) canInline(callee *ssa.Function) bool {
 	if f.depth >= 6 {
+		return false
+	}
+	if f.e.topSpec != nil && f.e.topSpec.OpaqueCallees {
 		return false
 	}
 	for _, s := range f.e.inlineStack {
@@ -915,6 +948,9 @@ func (f *FnEnc) havocTarget(tg assignTarget) {
 	if tg.comp == nil {
 		if tg.allBut != nil {
 			keep := tg.allBut
+			if dbg := os.Getenv("VCHECK_WS"); dbg != "" {
+				fmt.Fprintf(os.Stderr, "havoc-allbut in %s at %s: keeps %d comps, keep[%s]=%v\n", fnDisplayName(f.fn), f.e.posStr(f.curPos), len(keep), dbg, keep[dbg])
+			}
 			saved := f.saveLocals()
 			alloc := f.st.Alloc
 			f.st = e.havocState(f.st, func(c *Comp) bool { return keep[c.Name] })
@@ -990,6 +1026,7 @@ func (e *Enc) assignCompNames(spec *FuncSpec, sig *types.Signature, callee *ssa.
 		}
 		for _, tg := range ctx.locations(a.E) {
 			if tg.comp == nil {
+				e.lastAllBut = tg.allBut
 				return nil, true
 			}
 			names = append(names, tg.comp.Name)
